@@ -31,3 +31,8 @@ package ext
 //@ func Search
 //@   trusted
 //@   ensures 0 <= result && result <= n
+
+//@ package strings
+//@ func Clone
+//@   trusted
+//@   ensures result == s
